@@ -356,6 +356,7 @@ def check(ctx, case, preempt=None):
             if kind == 'help' and action == '_':
                 continue      # the help text: several lines, closed by the reply 'helping'
             ri += 1
+            inflight = {(sstep, skey) for sstep, skey, _, _ in suspects}     # updates on their way when the previous subscription ended
             for sstep, skey, text, why in suspects:
                 if not (kind == 'activate' and action == 'active' and in_scope({scope}, skey[0], wire(skey[1]))):
                     ctx.finding(f'update-after-{why}', sub, text)
@@ -374,7 +375,8 @@ def check(ctx, case, preempt=None):
                 subs.add(scope)
                 for k in newscope:
                     # from the snapshot message of this parameter on every change has to arrive (not only from the reply on)
-                    snap = [s_ for s_, kk, _ in pending_updates if kk == k]
+                    # (a late update of the previous subscription is no snapshot message of this one)
+                    snap = [s_ for s_, kk, _ in pending_updates if kk == k and (s_, kk) not in inflight]
                     since.setdefault(k, min(snap) if snap else step)
                     ended.pop(k, None)
             elif kind == 'deactivate' and action == 'inactive':
